@@ -49,12 +49,16 @@ class Writer:
         if self.threshold_link and len(data) > 2048:
             Activity.long.append([self.label, len(data)])
         i = 0
+        if self.frag == "tail1024" and len(data) % 1024:
+            # the reads of this write: a short one first, then full 1024-byte reads up to its very end
+            self.peer.q.put_nowait(data[:len(data) % 1024])
+            i = len(data) % 1024
         while i < len(data):
             if self.frag == "whole":
                 k = len(data)
             elif self.frag == "one":
                 k = 1
-            elif self.frag == "1024":
+            elif self.frag in ("1024", "tail1024"):
                 k = 1024
             elif self.frag == "big":
                 k = self.rng.choice([1, 511, 1024, 4096, 65536])
